@@ -28,12 +28,12 @@ type regStep struct {
 }
 
 type regCase struct {
-	Seed   uint64    `json:"seed"`
-	Mod    int       `json:"mod"`
-	Blocks int       `json:"blocks"` // ids are crafted to fall into this many blocks
-	Slots  int       `json:"slots"`  // ... and this many slots per block
-	Pool   int       `json:"pool"`   // number of distinct ids
-	Steps  []regStep `json:"steps"`
+	Seed   uint64          `json:"seed"`
+	Mod    int             `json:"mod"`
+	Blocks int             `json:"blocks"` // ids are crafted to fall into this many blocks
+	Slots  int             `json:"slots"`  // ... and this many slots per block
+	Pool   int             `json:"pool"`   // number of distinct ids
+	Steps  []regStep       `json:"steps"`
 	Faults []sim.FaultSpec `json:"faults,omitempty"`
 	// C23
 	Corrupt *corruptSpec `json:"corrupt,omitempty"`
@@ -47,7 +47,7 @@ func (c *regCase) poolID(i int) sop.UUID {
 	slot := uint64((i / c.Blocks) % c.Slots)
 	uniq := uint64(i / (c.Blocks * c.Slots))
 	high := block + uint64(c.Mod)*(uint64(i)+1)*7 // high % mod == block % mod
-	low := slot + 66*(uniq*131+uint64(i)+1)     // low % 66 == slot
+	low := slot + 66*(uniq*131+uint64(i)+1)       // low % 66 == slot
 	for b := 0; b < 8; b++ {
 		id[b] = byte(high >> (56 - 8*uint(b)))
 		id[8+b] = byte(low >> (56 - 8*uint(b)))
